@@ -940,7 +940,7 @@ func TestPropAddressResolution(t *testing.T) {
 			p := rapid.IntRange(1, 6553).Draw(rt, "p")
 			ids = []string{fmt.Sprintf("%s:%d", host, p), fmt.Sprintf("%s:%d", host, p*10+rapid.IntRange(0, 9).Draw(rt, "d")), host + "0:" + fmt.Sprint(p),
 				fmt.Sprintf("%s:%d", host, p*10+rapid.IntRange(0, 9).Draw(rt, "d2")), "x" + host + ":" + fmt.Sprint(p), host}
-			if rapid.IntRange(0, 99).Draw(rt, "alias") < map[bool]int{true: 10, false: 40}[aliasListed] {
+			if rapid.IntRange(0, 99).Draw(rt, "alias") < map[bool]int{true: 20, false: 40}[aliasListed] {
 				ids = append(ids, host+":8081")
 			}
 			ids = dedupe(ids)
@@ -950,7 +950,7 @@ func TestPropAddressResolution(t *testing.T) {
 		if aliasListed && style != "port-family" { // keep the listed ":8081" pair a minority class
 			keep := ids[:0:0]
 			for _, x := range ids {
-				if !(strings.HasSuffix(x, ":8081") && contains(ids, strings.TrimSuffix(x, ":8081"))) || rapid.IntRange(0, 9).Draw(rt, "keepAlias") == 0 {
+				if !(strings.HasSuffix(x, ":8081") && contains(ids, strings.TrimSuffix(x, ":8081"))) || rapid.IntRange(0, 3).Draw(rt, "keepAlias") == 0 {
 					keep = append(keep, x)
 				}
 			}
